@@ -1,11 +1,12 @@
 \* chain verification: dangling / foreign / reordered tokens, missing responses, an outsider sending
 SPECIFICATION MCSpec
-CONSTANTS AlreadyChecked = TRUE PkPerAuthority = TRUE CheckSubject = TRUE CheckPermission = TRUE Window = 300 RespCap = 10 FitAll = 8
+CONSTANTS AlreadyChecked = TRUE PkPerAuthority = TRUE CheckSubject = TRUE CheckPermission = TRUE CommitBeforeSend = TRUE Window = 300 RespCap = 10 FitAll = 8
   Regs = {1, 6} Senders = {1, 3} TokIdx = {1, 2, 3, 4, 5, 6, 7} MdIdx = {1, 2, 5, 10} AttIdx = {1} MissIdx = {1, 2, 3, 6}
-  Ticks = {} OwnerPeers = {} KnownVals = {} AttSend = {} RegFirst = FALSE
-  MaxReg = 2 MaxMsg = 3 MaxTick = 0 MaxOwn = 0
+  Ticks = {} OwnerPeers = {} KnownVals = {} AttSend = {} RegFirst = FALSE FaultTabs = {}
+  MaxReg = 2 MaxMsg = 3 MaxTick = 0 MaxOwn = 0 MaxFault = 0
 INVARIANT TypeOK
 INVARIANT SignsOnlyConsented
 INVARIANT StoresOnlyValidlySigned
 INVARIANT TokensOnlyUpToPermitted
 INVARIANT TreesVerified
+INVARIANT SentOnlyRecorded
